@@ -520,8 +520,17 @@ package parser
 //@ typeinv SelectObjectNode: self.Child != nil && (forall k Int :: hasKey(self.Fields, k) ==> getKey(self.Fields, k) != nil)
 //@ typeinv SelectObjectCurrentNode: (forall k Int :: hasKey(self.Fields, k) ==> getKey(self.Fields, k) != nil)
 
+// \uXXXX escapes: four hexadecimal digits, and a high surrogate must be followed by a second \u escape (C04, C16)
+//@ ghost hexByte(c Int) Bool = (48 <= c && c <= 57) || (65 <= c && c <= 70) || (97 <= c && c <= 102)
+
 //@ func parseQuotedIdentifier
 //@   tags C16 C04 C03
 //@   requires delimited: len(s) >= 2
+//@   note it_str is the string the loop ranges over (v[1:5], v[2:6]); in loop 3 the two bytes in front of it are the `\u` of the second escape
 //@   loop 1
 //@     invariant len(v) >= 1
+//@   loop 2
+//@     invariant[C04 C16] hex: forall k Int :: {byteOf(it_str, k)} 0 <= k && k < it_n ==> hexByte(byteOf(it_str, k))
+//@   loop 3
+//@     invariant[C04 C16] pair: it_str[0 - 2] == 92 && it_str[0 - 1] == 117
+//@     invariant[C04 C16] hex: forall k Int :: {byteOf(it_str, k)} 0 <= k && k < it_n ==> hexByte(byteOf(it_str, k))
